@@ -169,6 +169,22 @@ def run_unit(unit, rng, ctx):
         sp_parts = [np.asarray(TrajectoryMetrics(p).speed()) for p in parts]
         ctx.check(np.allclose(sm, np.mean(sp_parts, axis=0), rtol=1e-9, atol=1e-12) and np.allclose(ss, np.std(sp_parts, axis=0), rtol=1e-9, atol=1e-12), f'{what}: TrajectoryMetricsStd.speed != mean/std of the parts', wit)
         ctx.count('std_variants_checked')
+        # sub-trajectories of UNEQUAL length (default split, or hand-made slices): still plain mean / std
+        cuts = sorted({0, T} | {int(x) for x in rng.integers(2, T - 2, size=int(rng.integers(1, 4)))})
+        cuts = [c for i, c in enumerate(cuts) if i == 0 or c - cuts[i - 1] >= 2]
+        if len(cuts) >= 3 and cuts[-1] == T:
+            slices = [traj[a_:b_] for a_, b_ in zip(cuts[:-1], cuts[1:])]
+            S2 = TrajectoryMetricsStd(slices)
+            mine2 = []
+            for a_, b_ in zip(cuts[:-1], cuts[1:]):
+                seg = (U[a_:b_] - U[a_ : a_ + 1]) @ m
+                mine2.append(float(np.mean(np.sum(seg[-1] ** 2, axis=1))) * ANG**2 / (2 * dim * (b_ - a_) * dt))
+            g2 = S2.tracer_diffusivity(dimensions=dim)
+            ctx.check(close(g2.nominal_value, np.mean(mine2)) and abs(g2.std_dev - np.std(mine2)) <= 1e-9 * max(np.mean(mine2), 1e-300), f'{what}: TrajectoryMetricsStd.tracer_diffusivity over parts of lengths {np.diff(cuts).tolist()} is {g2!r}; plain mean/std of the parts is ({np.mean(mine2)!r}, {np.std(mine2)!r})', wit)
+            c2 = S2.tracer_conductivity(z_ion=z, dimensions=dim)
+            cm2 = [QE**2 * z**2 * v * dens / (KB * temp) for v in mine2]
+            ctx.check(close(c2.nominal_value, np.mean(cm2)) and abs(c2.std_dev - np.std(cm2)) <= 1e-9 * max(np.mean(cm2), 1e-300), f'{what}: TrajectoryMetricsStd.tracer_conductivity over unequal parts != plain mean/std', wit)
+            ctx.count('std_variants_on_unequal_parts')
     hetero = len(set(names)) > 1
     ctx.count(f'lattice:{kind}')
     ctx.count(f'z_ion:{z}')
